@@ -32,6 +32,10 @@ CLAIMED = {
    text="Machine-checked proof (Coq) of the call-site and MAKE_FUNCTION operand round trips (counts below 256 / 32768; refuted beyond) and that a successful binding by the EvalCode model leaves no parameter unbound and builds the star containers exactly when declared. The EvalCode model is tied to the code by running the exhaustive signature x plain-call product on the implementation and comparing inside Coq; *seq/**map call shapes and error selection are compared with CPython; Go callables of the four supported signatures are exercised by a harness scenario over two contexts (receiver, positional, keyword arguments, arity errors).",
    note="Trusted: Coq kernel; hand-written EvalCode model (correspondence-tied); CPython 3.11 as validated oracle. Partial: the full equivalence of the binding model with the language-reference algorithm is established by the exhaustive comparison with CPython, not by a theorem; keyword-only default misalignment is a listed finding.",
    technique="Rocq/Coq arithmetic round-trip proofs + model/implementation vm_compute correspondence on the exhaustive signature x call product + CPython differential + Go-callable harness", ref="5/C04"),
+ "C03": dict(
+   text="Machine-checked proof (Coq) that the scope analysis of a block is independent of the order in which the symbol map is iterated (any two permutations give the same per-name sets, scopes, Free flag and accept/reject), that forbidden declarations (parameter+global, global+nonlocal, nonlocal without enclosing binding or at module level) are rejected, and of the local/free binding rule. The per-name function of the model is tied to the exported Go method symtable.AnalyzeName on its entire finite input space (12288 inputs, compared inside Coq). Whole-program name resolution (cells shared by closures, late rebinding, class scopes, comprehensions, defaults, UnboundLocalError) is compared with CPython on seeded scope-tree programs, each also run twice to expose map-order dependence.",
+   note="Trusted: Coq kernel; the exhaustive table harness (cmd/impl c03); CPython 3.11 as validated oracle. Partial: symbol-table pass 1, AnalyzeCells, child propagation, compile.go NameOp and the VM name opcodes are covered by differential testing only.",
+   technique="Rocq/Coq permutation-invariance proof of the analysis loop + exhaustive model/implementation table + CPython differential on scope trees", ref="5/C03"),
 }
 NOT_YET = "check not built yet in this round (planned in DESIGN.md section 8)"
 checks = []; na = []
